@@ -33,6 +33,39 @@ pub enum Spec {
 }
 
 impl Spec {
+    /// (ids of every node inside a non-first overlay layer, (shared node id, directory) of every
+    /// non-first layer that is a sub-directory of a shared instance) - node ids are assigned in
+    /// pre-order by both the sync and the async stack builder
+    pub fn lower_info(&self) -> (std::collections::BTreeSet<u16>, Vec<(u16, String)>) {
+        fn rec(s: &Spec, next: &mut u16, lower: bool, nodes: &mut std::collections::BTreeSet<u16>, pfx: &mut Vec<(u16, String)>) {
+            let id = *next;
+            *next += 1;
+            if lower {
+                nodes.insert(id);
+            }
+            match s {
+                Spec::Mem { .. } | Spec::Phys { .. } | Spec::Emb => {}
+                Spec::Alt { inner, .. } => rec(inner, next, lower, nodes, pfx),
+                Spec::Ovl { layers } => {
+                    for (k, l) in layers.iter().enumerate() {
+                        rec(l, next, lower || k >= 1, nodes, pfx);
+                    }
+                }
+                Spec::OvlSub { base, dirs } => {
+                    let base_id = *next;
+                    rec(base, next, lower, nodes, pfx);
+                    for d in dirs.iter().skip(1) {
+                        pfx.push((base_id, d.clone()));
+                    }
+                }
+            }
+        }
+        let mut nodes = Default::default();
+        let mut pfx = vec![];
+        let mut next = 0u16;
+        rec(self, &mut next, false, &mut nodes, &mut pfx);
+        (nodes, pfx)
+    }
     pub fn shape(&self) -> String {
         match self {
             Spec::Mem { .. } => "mem".into(),
